@@ -50,6 +50,7 @@ var (
 	reFinite3264  = regexp.MustCompile(`^v = (float32|float64)\(tv\) ; if math\.IsInf\(float64\((?:float32\(tv\)|tv)\), 0\) \|\| tv != tv \{ v = nil err = newCoerceErr\(tv, "\w+"\) \}$`)
 	reFiniteAsIs  = regexp.MustCompile(`^if math\.IsInf\((float64\(tv\)|tv), 0\) \|\| tv != tv \{ v = nil err = newCoerceErr\(tv, "\w+"\) \}$`)
 	reParseFltFin = regexp.MustCompile(`^var f float64 ; if f, err = strconv\.ParseFloat\(tv, 64\); err == nil \{ v = f if math\.IsInf\(f, 0\) \|\| f != f \{ v = nil err = newCoerceErr\(tv, "\w+"\) \} \}$`)
+	reParseFltFin32 = regexp.MustCompile(`^var f float64 ; if f, err = strconv\.ParseFloat\(tv, 64\); err == nil \{ v = float32\(f\) if math\.IsInf\(float64\(float32\(f\)\), 0\) \|\| f != f \{ v = nil err = newCoerceErr\(tv, "\w+"\) \} \}$`)
 	reFailA       = regexp.MustCompile(`^err = newCoerceErr\((v|tv), ("\w+"|t\.N|t\.Name\(\))\) ; v = nil$`)
 	reFailB       = regexp.MustCompile(`^v = nil ; err = newCoerceErr\((v|tv), ("\w+"|t\.N|t\.Name\(\))\)$`)
 	reItoa        = regexp.MustCompile(`^v = strconv\.Itoa\((tv|int\(tv\))\)$`)
@@ -126,7 +127,9 @@ func actionOf(body string, pos string, kinds []string) string {
 		}
 		return unknown("coerce_arm_finite_asis", pos)
 	case reParseFltFin.MatchString(body):
-		return ".parseFloatFinite"
+		return ".parseFloatFinite .f64"
+	case reParseFltFin32.MatchString(body):
+		return ".parseFloatFinite .f32"
 	case reConv.MatchString(body):
 		return ".conv ." + convTargets[reConv.FindStringSubmatch(body)[1]]
 	case reFailA.MatchString(body), reFailB.MatchString(body):
